@@ -32,10 +32,12 @@ LEAN_FILES = ["TopSearch.Props.C07", "TopSearch.Lemmas.BasinHopping", "TopSearch
 EXTRA_TARGETS = ["TopSearch.Gen.BasinHopping", "TopSearch.Drv.Util"]
 REQUIRED = [
     "TopSearch.Props.C07.C07_bridge_copies",
-    "TopSearch.Props.C07.C07_bridge_kern",
+    "TopSearch.Props.C07.C07_bridge_fail_test",
+    "TopSearch.Props.C07.C07_bridge_downhill",
     "TopSearch.Props.C07.C07_walker",
     "TopSearch.Props.C07.C07_walker_gen",
     "TopSearch.Props.C07.C07_walker_is_minimiser_output",
+    "TopSearch.Props.C07.C07_walker_standard",
     "TopSearch.Props.C07.C07_energy_in_next_test",
     "TopSearch.Props.C07.C07_reject_restores",
     "TopSearch.Props.C07.C07_fail_restores",
@@ -200,7 +202,8 @@ def run_scripted(script: dict) -> dict:
         rec["metro"][st["t"]] = (float(e1), float(e2), float(T), bool(r))
         return r
     bh.metropolis = metro
-    with _Patched([(bhmod.lbfgs, "minimise", fake_minimise), (bhmod.np.random, "random", fake_random)]):
+    with _Patched([(bhmod.lbfgs, "minimise", fake_minimise), (bhmod.np.random, "random", fake_random)]), \
+            np.errstate(all="ignore"):
         try:
             bh.run(coords, len(steps), 1e-6, script["T"])
         except Exception as e:      # noqa: BLE001
@@ -299,7 +302,7 @@ def compare_runs(ctx: Ctx, runs: list[tuple[dict, dict]], label: str, cfg_line: 
             seen.add(m["dec"])
             net_after = rec["nets"][t + 1]
             canon = {"entry": m["entry"], "dec": m["dec"], "net": m["net"], "stream": label}
-            ctx.stats.case(canon, len(seen) >= 2)
+            ctx.stats.case(canon, len(seen) >= 2, sample_every=397)
             ctx.stats.branch(f"{script['kind']}:{m['dec']}")
             if m["entry"] != vec(rec["entries"][t]):
                 key = f"{label}:entry-position:after-{decs[t - 1] if t else 'init'}"
@@ -531,7 +534,8 @@ def run_trace(params: dict) -> tuple[dict, dict]:
         rec["metro"][st["t"]] = (float(e1), float(e2), float(T), bool(r))
         return r
     bh.metropolis = metro
-    with _Patched([(bhmod.lbfgs, "minimise", log_minimise), (bhmod.np.random, "random", log_random)]):
+    with _Patched([(bhmod.lbfgs, "minimise", log_minimise), (bhmod.np.random, "random", log_random)]), \
+            np.errstate(all="ignore"):
         try:
             bh.run(coords, n_steps, params.get("conv", 1e-6), params["T"])
         except Exception as e:      # noqa: BLE001
